@@ -39,12 +39,14 @@ from mashumaro.core.meta.helpers import (
     get_literal_values,
     get_name_error_name,
     get_type_annotations,
+    get_type_origin,
     hash_type_args,
     is_annotated,
     is_class_var,
     is_dataclass_dict_mixin,
     is_dataclass_dict_mixin_subclass,
     is_dialect_subclass,
+    is_final,
     is_hashable,
     is_init_var,
     is_literal,
@@ -1166,6 +1168,22 @@ class CodeBuilder:
         else:
             self.add_line(f"cls.{cache_name}[dialect] = {method_name}")
 
+    def is_field_nullable(self, fname: str, ftype: typing.Type) -> bool:
+        # Annotated[...] and Final[...] do not change what a field may hold
+        while True:
+            if is_annotated(ftype):
+                ftype = get_type_origin(ftype)
+            elif is_final(ftype) and get_args(ftype):
+                ftype = get_args(ftype)[0]
+            else:
+                break
+        return (
+            ftype in (typing.Any, type(None), None)
+            or is_type_var_any(self.get_real_type(fname, ftype))
+            or is_optional(ftype, self.get_field_resolved_type_params(fname))
+            or self.get_field_default(fname) is None
+        )
+
     def _get_field_packer(
         self,
         fname: str,
@@ -1175,12 +1193,7 @@ class CodeBuilder:
     ) -> typing.Tuple[str, typing.Optional[str], bool]:
         metadata = self.metadatas.get(fname, {})
         alias = self.__get_field_alias(fname, ftype, metadata, config)
-        could_be_none = (
-            ftype in (typing.Any, type(None), None)
-            or is_type_var_any(self.get_real_type(fname, ftype))
-            or is_optional(ftype, self.get_field_resolved_type_params(fname))
-            or self.get_field_default(fname) is None
-        )
+        could_be_none = self.is_field_nullable(fname, ftype)
         value = "value" if could_be_none or force_value else f"self.{fname}"
         packer = PackerRegistry.get(
             ValueSpec(
@@ -1332,14 +1345,7 @@ class FieldUnpackerCodeBlockBuilder:
                 fname
             ),
         )
-        could_be_none = (
-            ftype in (typing.Any, type(None), None)
-            or is_type_var_any(self.parent.get_real_type(fname, ftype))
-            or is_optional(
-                ftype, self.parent.get_field_resolved_type_params(fname)
-            )
-            or default is None
-        )
+        could_be_none = self.parent.is_field_nullable(fname, ftype)
         unpacked_value = UnpackerRegistry.get(
             ValueSpec(
                 type=ftype,
